@@ -117,6 +117,24 @@ func c17Hooks(xr *xssRoots, name string, hooks *absint.Hooks) {
 			return
 		}
 		if b, _ := val.(absint.BoolV); b.Known == 2 {
+			// T-report: a step that filled in a non-empty token reports it
+			if rc0 := xr.getCtx(name); rc0 != nil && xr.g.Nodes[fr.Fn()] != nil {
+				wrote := false
+				if lc, ok := e.CellOf(st, ghostScan, "lenFrame"); ok {
+					if f, isC := absint.ConstOf(lc); isC && f == int64(fr.ID()) {
+						wrote = true
+					}
+				}
+				if wrote {
+					empty := false
+					if tl, ok := e.CellOf(st, rc0.H, lenFld); ok {
+						if tli, isI := tl.(absint.IntV); isI && e.ProveLE(st, tli.L, absint.K(0)) {
+							empty = true
+						}
+					}
+					e.Check(st, fr, ret.Pos(), "T-report", "a step that wrote a non-empty token reports it at "+retLabel(ret), empty, "the token fields were written in this step, the token is not provably empty, and the step answers false: the token is dropped")
+				}
+			}
 			return
 		}
 		where := retLabel(ret)
@@ -273,7 +291,7 @@ func checkC17(c *Ctx) *core.Result {
 	xr.runAll(func(name string, hooks *absint.Hooks) { c17Hooks(xr, name, hooks) })
 	residuals := loadResiduals(c, r)
 	obs := mergeObs(xr.runs)
-	own := map[string]bool{"T-next": true, "T-span": true, "T-order": true, "O-first": true, "O-resume": true, "O-end": true, "O-eof": true, "O-next": true, "O-match": true, "I-post": true}
+	own := map[string]bool{"T-next": true, "T-report": true, "T-span": true, "T-order": true, "O-first": true, "O-resume": true, "O-end": true, "O-eof": true, "O-next": true, "O-match": true, "I-post": true}
 	n := emitObs(r, obs, residuals, "C17", func(o *absint.Ob) bool {
 		return own[o.Rule] && strings.HasPrefix(o.Fn, env.a.TypeName("xss.state")+".")
 	})
@@ -317,7 +335,7 @@ func checkC17(c *Ctx) *core.Result {
 	// T-count: steps that emit without moving the cursor must not form a cycle
 	tcount(xr, r, c)
 	r.Extra["roots"] = xr.describe()
-	r.Explanation = e3Explain + " C17 analyses every HTML state function as a root from an arbitrary tokenizer state satisfying the interface invariant plus per-state entry facts inferred Houdini-style over all transitions (pos ≥ 1, pos < len, prevEnd ≤ pos, prevEnd < pos). At every return that reports a token: T-span (token inside the input), T-order (token starts at or after the end of the previous token), and for tokens produced by a terminator search O-first (the first search starts at the token start), O-resume (after a rejected candidate the search resumes at candidate + 1), O-end (the token ends exactly at the accepted terminator, or at end of input), O-eof (giving up a found candidate needs proof that fewer bytes remain than the shortest accepted terminator of that search, or that the bytes behind the candidate were examined up to the end of the input), O-next (cursor behind the terminator), O-match (closing quote = opening quote where known). T-count: the transitions that emit a token without advancing the cursor form an acyclic graph, so the number of tokens is at most (L+1)·(|s|+1) with L the longest such chain. T-quote / T-skip (path rules): each quoted start state hands its own quote byte to the common quoted-value lexer, and that lexer advances the cursor before its terminator search under `pos > 0` only, so the value token of a quoted start context has offset 0 and ends at the first matching quote. NOT decided: the exact |s|+1 constant, the content of multi-byte terminators (which bytes follow the first), the NUL tolerance of comments."
+	r.Explanation = e3Explain + " C17 analyses every HTML state function as a root from an arbitrary tokenizer state satisfying the interface invariant plus per-state entry facts inferred Houdini-style over all transitions (pos ≥ 1, pos < len, prevEnd ≤ pos, prevEnd < pos). At every return that reports a token: T-span (token inside the input), T-order (token starts at or after the end of the previous token), and for tokens produced by a terminator search O-first (the first search starts at the token start), O-resume (after a rejected candidate the search resumes at candidate + 1), O-end (the token ends exactly at the accepted terminator, or at end of input), O-eof (giving up a found candidate needs proof that fewer bytes remain than the shortest accepted terminator of that search, or that the bytes behind the candidate were examined up to the end of the input), O-next (cursor behind the terminator), O-match (closing quote = opening quote where known). T-count: the transitions that emit a token without advancing the cursor form an acyclic graph, so the number of tokens is at most (L+1)·(|s|+1) with L the longest such chain. T-next: an activation that reports a token (and does not hand over to another state) wrote the state variable itself; T-report: an activation that wrote the token fields and answers false has a provably empty token. T-quote / T-skip (path rules): each quoted start state hands its own quote byte to the common quoted-value lexer, and that lexer advances the cursor before its terminator search under `pos > 0` only, so the value token of a quoted start context has offset 0 and ends at the first matching quote. NOT decided: the exact |s|+1 constant, the content of multi-byte terminators (which bytes follow the first), the NUL tolerance of comments."
 	r.Trusted = []string{"go/ssa", "E3 transfer functions and library models (search results)", "in-checker simplex", "state graph extraction (C13)"}
 	return r
 }
